@@ -62,6 +62,7 @@ IDIOMS = {
     'I25': 'X.chunks(2).filter(|c| c.len() == 2).map(|c| sha256d::Hash::hash(&[c[0], c[1]].concat())).collect::<Vec<sha256d::Hash>>()  =>  idiom_hash_pairs(&X)   (hash of every complete adjacent pair, in order)',
     'I26': '[&A[..], &B[..]].concat()  =>  idiom_concat_hashes(A, B)   (the bytes of two hashes, concatenated)',
     'I27': 'X.iter().map(|tx| tx.hash).collect::<Vec<sha256d::Hash>>()  =>  idiom_tx_hashes(&X)   (the hash field of every element, in order)',
+    'I28': '(0..N).map(|_| E).collect()  [tail expression of a fn returning Result<Vec<T>>]  =>  { let mut v__ = Vec::new(); for i__ in 0..N { let x__ = E?; v__.push(x__); } Ok(v__) }   and   (0..N).map(|_| E).collect::<Result<Vec<T>>>()?  =>  { let mut v__: Vec<T> = Vec::new(); for i__ in 0..N { let x__ = E?; v__.push(x__); } v__ }   (collect() into a Result stops at the first Err and returns it: the same early return)',
     'I24': 'PATH(ARGS).expect(MSG)  =>  idiom_expect(PATH(ARGS), MSG)   (Result::expect: returns only when the result is Ok, panics otherwise)',
     'A1': 'abstract-expression: `expr` => havoc::<T>() (unconstrained value)',
 }
@@ -322,7 +323,7 @@ def build_fn(repo, blk, log, abstract=()):
             # `idiom?` = apply when the source has the idiom's shape, skip (and log) otherwise:
             # lets one template follow the code across a repair (e.g. `..` vs `..=`)
             try:
-                apply_idiom(ed, text, base, body_rel, loops, rest, item_id, log, rel, src)
+                apply_idiom(ed, text, base, body_rel, loops, rest, item_id, log, rel, src, raw=raw, tline=tline)
             except GenError as e:
                 if word == 'idiom':
                     lost.append('idiom %s: %s' % (rest.split()[0], str(e)[:80]))
@@ -451,7 +452,7 @@ def _enclosing_close(s, pos):
     raise GenError('no enclosing block')
 
 
-def apply_idiom(ed, text, base, body_rel, loops, rest, item_id, log, rel, src):
+def apply_idiom(ed, text, base, body_rel, loops, rest, item_id, log, rel, src, raw=None, tline=None):
     m = re.match(r'(\w+)\s*(.*)$', rest)
     rule, arg = m.group(1), m.group(2)
     if rule not in IDIOMS:
@@ -538,6 +539,18 @@ def apply_idiom(ed, text, base, body_rel, loops, rest, item_id, log, rel, src):
             b = e + 1
             if text[b:b + 1] == ';':
                 b += 1
+            anchor = text[a:b]
+        if rule == 'I28' and anchor == '(0..':
+            # the anchor names the range; the span is (0..N).map(|_| E).collect[::<Result<Vec<T>>>]()[?]  (N and E stay under proof)
+            c1 = _balanced_arg(text, a)
+            m2 = re.match(r'\s*\.map\(', text[c1 + 1:])
+            if not m2:
+                raise GenError('I28: (0..N) is not followed by .map(')
+            c2 = _balanced_arg(text, c1 + 1 + m2.end() - 1)
+            m3 = re.match(r'\s*\.collect(?:::<Result<Vec<[^()]+?>>>)?\(\)\??', text[c2 + 1:])
+            if not m3:
+                raise GenError('I28: .map(..) is not followed by .collect()')
+            b = c2 + 1 + m3.end()
             anchor = text[a:b]
         if rule == 'I15' and anchor.endswith('.entry('):
             # the anchor names the map; the span is M.entry(<balanced>).or_insert(<balanced>) (K and V stay under proof)
@@ -668,6 +681,37 @@ def apply_idiom(ed, text, base, body_rel, loops, rest, item_id, log, rel, src):
             if not h:
                 raise GenError('I9 shape mismatch: %s' % flat)
             new = 'idiom_checked_sub_or_default(%s, %s)' % h.groups()
+        elif rule == 'I28':
+            h = re.match(r'^\(0\.\.(?P<n>.+?)\)\s*\.map\(\|_\|\s*(?P<e>.+)\)\s*\.collect(?:::<Result<Vec<(?P<t>.+)>>>)?\(\)(?P<q>\?)?$', anchor, re.S)
+            if not h or (h.group('t') is None) != (h.group('q') is None):
+                raise GenError('I28 shape mismatch: %s' % flat)
+            sect = {'pre': [], 'inv': [], 'top': [], 'body': []}
+            cur = 'inv'
+            for (ln, tl) in (raw or []):
+                mm3 = re.match(r'\s*//--(pre|inv|top|body)\s*$', ln)
+                if mm3:
+                    cur = mm3.group(1)
+                else:
+                    sect[cur].append((ln, tl))
+            n0, n1 = a + h.start('n'), a + h.end('n')
+            e0, e1 = a + h.start('e'), a + h.end('e')
+            d = {'kind': 'idiom-I28', 'arg': rest, 'tline': tline}
+            if h.group('t') is not None:
+                head = '{ let mut v__: Vec<%s> = Vec::new(); ' % h.group('t')
+                tail = '} v__ }'
+            else:
+                head = '{ let mut v__ = Vec::new(); '
+                tail = '} Ok(v__) }'
+            ed.replace(a, a + 1, head, 'I28')
+            if sect['pre']:
+                ed.insert(a + 1, sect['pre'], d)
+            ed.replace(a + 1, n0, 'for i__ in it__: 0..', 'I28')
+            ed.replace(n1, e0, ' ', 'I28')
+            ed.insert(e0, sect['inv'] + [('{', tline)] + sect['top'] + [('let x__ = ', tline)], d)
+            ed.replace(e1, b, '?; v__.push(x__);', 'I28')
+            ed.insert(b, sect['body'] + [(tail, tline)], d)
+            log['idioms'].append(dict(inst, new=head + 'for i__ in 0..N { let x__ = E?; v__.push(x__); ' + tail))
+            return
         elif rule == 'I25':
             sq = re.sub(r'\s+', '', anchor)
             h = re.match(r'^([\w\.]+)\.chunks\(2\)\.filter\(\|c\|c\.len\(\)==2\)\.map\(\|c\|sha256d::Hash::hash\(&\[c\[0\],c\[1\]\]\.concat\(\)\)\)\.collect::<Vec<sha256d::Hash>>\(\)$', sq)
